@@ -2,6 +2,7 @@ package rules
 
 import (
 	"fmt"
+	"go/token"
 	"go/types"
 	"sort"
 	"strings"
@@ -407,5 +408,170 @@ func pairUnlock(r *engine.Run, rule string, funcs []*ssa.Function, minimum int) 
 	}
 	if n < minimum {
 		r.Anchor(rule, fmt.Errorf("unresolved anchor: %d mutex acquisitions found, at least %d expected", n, minimum))
+	}
+}
+
+// ---- LOCK-reentrant --------------------------------------------------------------
+
+// sync.Mutex and sync.RWMutex are not reentrant. Acquiring a mutex of an object
+// while the same goroutine already holds it deadlocks at once for Lock; for
+// RLock under RLock it deadlocks as soon as a writer queues up between the two
+// acquisitions (a pending Lock blocks new readers), which is a matter of
+// schedule and never shows in a sequential test.
+//
+// The analysis is per object, not per type: a lock is "held on the receiver"
+// when the function acquired it through its own receiver, and the fact is
+// carried into a callee only along calls made on that same receiver value.
+// Within a function the must-lockset is used (held on every path to the call);
+// across functions any call chain counts (a deadlock needs one).
+func lockReentrant(r *engine.Run, rule string, funcs []*ssa.Function, minimum int) {
+	type site struct {
+		from *ssa.Function
+		at   ssa.Instruction
+	}
+	inSet := map[*ssa.Function]bool{}
+	for _, f := range funcs {
+		inSet[f] = true
+	}
+	recvOf := func(f *ssa.Function) ssa.Value {
+		if f.Signature.Recv() == nil || len(f.Params) == 0 || f.Parent() != nil {
+			return nil
+		}
+		return f.Params[0]
+	}
+	// the mutex operand belongs to the receiver: &recv.f or *(&recv.f), possibly through embedded structs
+	ownMutex := func(f *ssa.Function, v ssa.Value) bool {
+		rv := recvOf(f)
+		if rv == nil {
+			return false
+		}
+		if u, ok := v.(*ssa.UnOp); ok && u.Op == token.MUL {
+			v = u.X
+		}
+		for {
+			fa, ok := v.(*ssa.FieldAddr)
+			if !ok {
+				return false
+			}
+			if fa.X == rv {
+				return true
+			}
+			v = fa.X
+		}
+	}
+	local := map[*ssa.Function]*engine.FuncLocks{}
+	ownKeys := map[*ssa.Function]map[string]bool{} // keys f locks through its own receiver, and only through it
+	for _, f := range funcs {
+		if len(f.Blocks) == 0 || recvOf(f) == nil {
+			continue
+		}
+		local[f] = engine.LocksIn(f)
+		own, foreign := map[string]bool{}, map[string]bool{}
+		engine.Instrs(f, func(in ssa.Instruction) {
+			c, ok := in.(*ssa.Call)
+			if !ok {
+				return
+			}
+			if key, op, isLock := engine.LockOp(c); isLock && (op == "Lock" || op == "RLock") {
+				if ownMutex(f, c.Call.Args[0]) {
+					own[key] = true
+				} else {
+					foreign[key] = true
+				}
+			}
+		})
+		for k := range foreign {
+			delete(own, k)
+		}
+		ownKeys[f] = own
+	}
+	heldAt := func(f *ssa.Function, in ssa.Instruction) map[string]bool {
+		out := map[string]bool{}
+		if fl := local[f]; fl != nil {
+			for k := range fl.At[in] {
+				if ownKeys[f][k] {
+					out[k] = true
+				}
+			}
+		}
+		return out
+	}
+	entry := map[*ssa.Function]map[string]site{}
+	for changed := true; changed; {
+		changed = false
+		for _, f := range funcs {
+			rv := recvOf(f)
+			if rv == nil || len(f.Blocks) == 0 {
+				continue
+			}
+			engine.Instrs(f, func(in ssa.Instruction) {
+				c, ok := in.(*ssa.Call)
+				if !ok {
+					return
+				}
+				g := c.Call.StaticCallee()
+				if g == nil || !inSet[g] || recvOf(g) == nil || len(c.Call.Args) == 0 || c.Call.Args[0] != rv {
+					return
+				}
+				held := heldAt(f, c)
+				for k := range entry[f] {
+					held[k] = true
+				}
+				for k := range held {
+					if entry[g] == nil {
+						entry[g] = map[string]site{}
+					}
+					if _, had := entry[g][k]; !had {
+						entry[g][k] = site{f, c}
+						changed = true
+					}
+				}
+			})
+		}
+	}
+	n := 0
+	for _, f := range funcs {
+		if len(f.Blocks) == 0 || recvOf(f) == nil {
+			continue
+		}
+		o := ord{}
+		engine.Instrs(f, func(in ssa.Instruction) {
+			c, ok := in.(*ssa.Call)
+			if !ok {
+				return
+			}
+			key, op, isLock := engine.LockOp(c)
+			if !isLock || (op != "Lock" && op != "RLock") || !ownMutex(f, c.Call.Args[0]) {
+				return
+			}
+			n++
+			cons := o.next(fn(f) + "|" + op + " " + key)
+			pos := r.P.Pos(c.Pos())
+			if heldAt(f, c)[key] {
+				r.Fail(rule, cons, pos, op+" of "+key+" while this function already holds it on the same object: sync mutexes are not reentrant")
+				return
+			}
+			if s, held := entry[f][key]; held {
+				chain := []string{fn(f)}
+				cur := s
+				for i := 0; i < 8; i++ {
+					chain = append([]string{fn(cur.from)}, chain...)
+					if heldAt(cur.from, cur.at)[key] {
+						break
+					}
+					nx, ok := entry[cur.from][key]
+					if !ok {
+						break
+					}
+					cur = nx
+				}
+				r.Fail(rule, cons, pos, op+" of "+key+" on an object whose "+key+" the calling goroutine already holds (call chain "+strings.Join(chain, " -> ")+", first held at "+r.P.Pos(cur.at.Pos())+"): sync mutexes are not reentrant - a second Lock blocks for ever, a second RLock blocks as soon as a writer has queued up in between, and then the writer, this reader and every later operation on the object wait for each other")
+				return
+			}
+			r.OK(rule, cons, pos, "not reachable with the same object's "+key+" held")
+		})
+	}
+	if n < minimum {
+		r.Anchor(rule, fmt.Errorf("unresolved anchor: only %d lock acquisitions on the receiver found", n))
 	}
 }
